@@ -557,5 +557,9 @@ func TestC02(t *testing.T) {
 		parallelCases(vlib.Scale(60, 1200), 8, func(i int) { c02Slicing(ev, driver, i) })
 	}
 	<-binDone
+	for _, driver := range vlib.Drivers() {
+		driver := driver
+		parallelCases(vlib.Scale(12, 300), 4, func(i int) { contractEconomy(ev, "C02", driver, i) })
+	}
 	finish(t, ev)
 }
